@@ -681,6 +681,23 @@ class ExtraOps:
             return lambda: ops[0].rel.chain(ops[1].rel)
         if k == "join":
             kw = {x: bool(op[y]) for x, y in (("backtrack", "bt"), ("transfer", "tr")) if y in op}
+            if op.get("direct"):
+                def call_direct():
+                    from lsst.daf.relation import Join as _Join
+
+                    pred = build_pred(op["p"], tags) if op.get("p") is not None else None
+                    return (_Join(pred) if pred is not None else _Join()).apply(ops[0].rel, ops[1].rel)
+
+                return call_direct
+            if op.get("cmax") is not None:
+                def call_cmax():
+                    from lsst.daf.relation import Join as _Join, Predicate as _P
+
+                    pred = build_pred(op["p"], tags) if op.get("p") is not None else _P.literal(True)
+                    j = _Join(pred, frozenset(), frozenset(tags[c] for c in op["cmax"]))
+                    return j.partial(ops[1].rel).apply(ops[0].rel, **kw)
+
+                return call_cmax
             if op.get("cc"):
                 def call():
                     from lsst.daf.relation import Join as _Join, Predicate as _P
